@@ -47,9 +47,10 @@ def judge(rep, scn, out):
 def run_shard(rep):
     from vlab.props.dagprop import drive
     cfg = META['tiers'][rep.tier]
-    rep.require('progress_checks', 5000)
+    rep.require('progress_checks', 2000)
     rep.require('rests_with_queue', 50)
-    drive(rep, 'C05', make_scn=make_scn, judge=judge, n_sim=cfg['n_sim'], n_real=cfg['n_real'])
+    drive(rep, 'C05', make_scn=make_scn, judge=judge, n_sim=cfg['n_sim'], n_real=cfg['n_real'],
+          handles_spin='runnable-never-started')
 
 
 def replay(rep, wit):
